@@ -165,7 +165,11 @@ class PathCtl:
         self.trace = []     # (n_alternatives_feasible list, chosen index)
         self.pc = []
 
+    deadline = None          # wall-clock limit of the whole exploration (set by the caller); past it the exploration is inconclusive
+
     def _feasible(self, cond):
+        if self.deadline is not None and time.time() > self.deadline:
+            raise Unsupported('exploration exceeds its wall-clock budget (path explosion)')
         STATS.feas_queries += 1
         t = time.time()
         self.solver.push()
